@@ -9,18 +9,19 @@ from vf.problems import Manufactured, rng_for
 
 LEVEL = "exploration"
 RULE = ("kinds: sequence (random operation sequence over {integrate(), integrate(t), set dt/rtol/atol/method/tf, set_kick_vars, integrate with events, "
-        "faulting integrate, reset} executed twice (determinism: bit-identical logs), then from the last reset on compared bit-for-bit with a FRESH twin "
+        "faulting integrate (also: fault inside the retry of a rejected step), reset} executed twice (determinism: bit-identical logs), then from the last reset on compared bit-for-bit with a FRESH twin "
         "built with the same constructor arguments and persistent settings; state right after reset must be pristine; caller's y0 and constants compared "
         "with private copies after every operation), split (span cut into 2..5 calls vs one call), noop (call at the target changes nothing); "
         "non-trivial = sequence contains a reset followed by an integration; distinct by operation-shape signature")
 ASSUMPTIONS = ["persistent settings across reset(): method, rtol, atol, tf, kick mask, constants; dt returns to the constructor's dt with the sign of (tf - t0)"]
 FLOORS = {"quick": {"sequences": 100, "resets_checked": 100, "twin_comparisons": 100, "reset_after_event": 15, "reset_after_fault": 15, "reset_after_method_change": 15,
-                    "split_pairs": 30, "noop_calls": 30},
+                    "split_pairs": 30, "noop_calls": 30, "call_start_step_replay_steps": 300, "call_start_slope_checks": 100, "faults_inside_a_retry": 8},
           "thorough": {"sequences": 1000, "resets_checked": 1000, "twin_comparisons": 1000, "reset_after_event": 150, "reset_after_fault": 150,
-                       "reset_after_method_change": 150, "split_pairs": 300, "noop_calls": 300}}
+                       "reset_after_method_change": 150, "split_pairs": 300, "noop_calls": 300, "call_start_step_replay_steps": 3000, "call_start_slope_checks": 1000, "faults_inside_a_retry": 40}}
 CASE_TIMEOUT = 900
 METHODS = ["RK45CKSolver", "DOPRI45", "RK4Solver", "EulerSolver", "HeunEulerSolver", "RK8713MSolver", "ABAs5o6HSolver", "SymplecticEulerSolver",
-           "BackwardEuler", "RadauIIA5", "GaussLegendre4", "MidpointSolver", "LobattoIIIC4"]
+           "BackwardEuler", "RadauIIA5", "GaussLegendre4", "MidpointSolver", "LobattoIIIC4", "R2:RK4Solver", "R3:MidpointSolver", "R3:HeunEulerSolver", "R4:EulerSolver"]
+RICH_EXTRA = ["R2:RK4Solver", "R3:MidpointSolver", "R3:HeunEulerSolver", "R4:EulerSolver", "R2:RK45CKSolver", "R3:ABAs5o6HSolver", "R2:BackwardEuler", "R5:MidpointSolver"]
 NOT_RUN = "Integration has not been run."
 
 
@@ -31,7 +32,7 @@ class Fault(Exception):
 def gen_cases(tier, seed):
     rng = rng_for(1301, seed)
     M = util.methods()
-    names = METHODS if tier == "quick" else list(M)
+    names = METHODS if tier == "quick" else list(M) + RICH_EXTRA
     cases = []
     nseq = 130 if tier == "quick" else 1300
     for i in range(nseq):
@@ -48,8 +49,12 @@ def gen_cases(tier, seed):
         r = rng.random()
         if r < 0.25:
             ops.append(["integrate_events", None])
-        elif r < 0.5:
+        elif r < 0.38:
             ops.append(["fault_integrate", None, int(rng.integers(3, 40))])
+        elif r < 0.5:
+            # the fault fires inside the RETRY of a rejected step (a callback inflates dt before that step), the run is resumed afterwards
+            ops.append(["fault_retry_integrate", None, int(rng.integers(2, 6))])
+            ops.append(["integrate", None])
         elif r < 0.75:
             ops.append(["set_method", names[int(rng.integers(len(names)))]])
             ops.append(["integrate", None])
@@ -68,6 +73,14 @@ def gen_cases(tier, seed):
                 frac = max(frac, op[1])
         ops.append(["integrate", None])
         cases.append(dict(kind="sequence", method=m0, direction=d, dense=bool(rng.random() < 0.5), ops=ops, pseed=int(rng.integers(1 << 30)), cost=4 + len(ops)))
+    # core battery: fault inside the retry of a rejected step, resume, reset, rerun - for the step-size controlled families
+    adaptive = [n for n in names if ":" not in n and M[n]["adaptive"]]
+    for m0 in adaptive:
+        for d in (1, -1):
+            for dense in ((True, False) if tier == "thorough" else (bool((len(m0) + d) % 2),)):
+                for kstep in ((2, 3, 5) if tier == "thorough" else (int(rng.integers(2, 5)),)):
+                    cases.append(dict(kind="sequence", method=m0, direction=d, dense=dense, pseed=int(rng.integers(1 << 30)), cost=8,
+                                      ops=[["fault_retry_integrate", None, kstep], ["integrate", None], ["reset"], ["integrate", None]]))
     for i in range(40 if tier == "quick" else 400):
         m0 = names[int(rng.integers(len(names)))]
         cuts = sorted(float(x) for x in rng.uniform(0.1, 0.9, int(rng.integers(1, 5))))
@@ -135,7 +148,7 @@ class Runner:
         import warnings
         with warnings.catch_warnings():
             warnings.simplefilter("ignore")
-            self.system.method = M[s["method"]]["cls"]
+            self.system.method = util.resolve_cls(s["method"], M)
             if s["tf"] != tf:
                 self.system.tf = s["tf"]
             if s["mask"] is not None:
@@ -147,6 +160,11 @@ class Runner:
 
     def f(self, t, y, gain=1.0, **kw):
         self.fault["n"] += 1
+        pred = self.fault.get("pred")
+        if pred is not None and pred():
+            self.fault["pred"] = None
+            self.fault["fired_in_retry"] = True
+            raise Fault("injected inside a retry")
         if self.fault["at"] is not None and self.fault["n"] >= self.fault["at"]:
             self.fault["at"] = None
             raise Fault("injected")
@@ -190,6 +208,33 @@ class Runner:
                         if self.fault["at"] is None:
                             self.since_reset["fault"] = True
                         self.fault["at"] = None
+                elif name == "fault_retry_integrate":
+                    from vf.instrument import StepLog
+                    slog = StepLog(s.integrator)
+                    st_ = {"steps": 0, "watch": False}
+
+                    def cb(sys_):
+                        st_["steps"] += 1
+                        slog.attempts.append({"boundary": 1})
+                        if st_["steps"] == op[2]:
+                            sys_.dt = sys_.dt * 8.0
+                            st_["watch"] = True
+
+                    def pred():
+                        if not st_["watch"]:
+                            return False
+                        tail = []
+                        for a in slog.attempts:
+                            tail = [] if "boundary" in a else tail + [a]
+                        return len(tail) >= 2
+                    self.fault["pred"] = pred
+                    try:
+                        s.integrate(self.target(op[1]), callback=cb)
+                    finally:
+                        if self.fault.get("fired_in_retry"):
+                            self.since_reset["fault"] = True
+                            self.flags.add("fault_in_retry")
+                        self.fault["pred"] = None
                 elif name == "set_dt":
                     s.dt = op[1]
                 elif name == "set_tol":
@@ -197,7 +242,7 @@ class Runner:
                     s.atol = op[2]
                     self.settings["rtol"], self.settings["atol"] = op[1], op[2]
                 elif name == "set_method":
-                    s.method = self.M[op[1]]["cls"]
+                    s.method = util.resolve_cls(op[1], self.M)
                     self.settings["method"] = op[1]
                     self.since_reset["method"] = True
                 elif name == "set_kick":
@@ -252,7 +297,30 @@ def run_case(spec):
                 sm = R.system.staggered_mask
                 settings_at_reset["mask"] = None if sm is None else [bool(x) for x in np.asarray(sm).reshape(-1)]
                 idx_reset = len(R.log)
+            n_rows0 = len(R.system)
             o = R.apply(op)
+            if rep == 0 and op[0] == "fault_retry_integrate" and "fault_in_retry" in R.flags:
+                rec.bump("faults_inside_a_retry")
+            if rep == 0 and op[0] in ("integrate", "integrate_events", "fault_integrate", "fault_retry_integrate") and len(R.system) > n_rows0 and ":" not in R.settings["method"]:
+                # the first steps of every call start where an earlier call (completed, failed, with other settings) left off: they must be
+                # the steps a fresh integrator takes from the recorded row
+                inf_ = R.M[R.settings["method"]]
+                sm_ = R.system.staggered_mask if inf_["splitting"] else None
+                sysrun.replay_steps(rec, inf_, R.f, np.asarray(R.system.t), np.asarray(R.system.y), range(n_rows0 - 1, min(n_rows0 + 1, len(R.system) - 1)),
+                                    dict(feats, op=op[0], method_now=R.settings["method"]), R.settings["rtol"], R.settings["atol"], prob.lipschitz() + 1.0,
+                                    constants=R.consts, clause="call_start_step_replay", mask=None if sm_ is None else np.asarray(sm_))
+                sol_ = R.system.sol
+                if spec["dense"] and sol_ is not None and sol_.t_eval is not None and n_rows0 >= 1:
+                    # with dense output kept, the first piece of the call starts with f at the recorded row it starts from
+                    tj = float(R.system.t[n_rows0 - 1])
+                    for p_ in sol_.y_interpolants:
+                        if float(p_.t0) == tj:
+                            fj = np.asarray(R.f(np.asarray(p_.t0), np.asarray(p_.p0), **R.consts))
+                            rec.bump("call_start_slope_checks")
+                            e_ = float(np.max(np.abs(np.asarray(p_.m0) - fj)))
+                            if e_ > 1e-11 * (1 + float(np.max(np.abs(fj)))):
+                                rec.violate("call_start_slope", "first_dense_piece_of_a_call_starts_with_a_slope_from_elsewhere", dict(feats, op=op[0], method_now=R.settings["method"]), err=e_)
+                            break
             if op[0] == "reset":
                 R.since_reset = {"event": False, "fault": False, "method": False}
                 # ---- pristine state right after reset
@@ -330,7 +398,10 @@ def run_case(spec):
 
 def _split(spec):
     M = util.methods()
-    info = M[spec["method"]]
+    info = dict(M[spec["method"].split(":")[-1]])
+    info["cls"] = util.resolve_cls(spec["method"], M)
+    if ":" in spec["method"]:
+        info["family"] = "richardson"
     d = spec["direction"]
     prob = Manufactured(2, spec["pseed"], direction=d)
     t0 = -0.4
